@@ -167,6 +167,10 @@ func (e *Env) encodeRules(l *facts.Level) {
 	}
 	who := fname(enc)
 	pos := e.P.Pos(enc.Pos())
+	if l.Names == nil {
+		c.Undecided("encode-emissions", who, pos, l.NamesProblem)
+		return
+	}
 	sf := e.P.SSAFunc(enc)
 	leaves, err := ir.Leaves(sf, ir.LeafOptions{Forward: true, Effects: true, MaxPaths: 20000, Inline: e.inlineHelpers()})
 	if err != nil {
